@@ -36,13 +36,15 @@ from ._c06_util import Flow, HelperCalls, indent_of, inline_all, lifted, names_e
 STEPS = "timeseries.formula_engine._formula_steps"
 MF = f"{STEPS}:MetricFetcher"
 FFM = "timeseries.formula_engine._formula_generators._fallback_formula_metric_fetcher"
+SYNC_HINT = "_synchronize_and_fetch_fallback"
 
 
 class SelInterp(HelperCalls, Interp):
-    def __init__(self, sync_params: list[str] | None = None) -> None:
+    def __init__(self, sync_params: list[str] | None = None, sync_name: str = SYNC_HINT) -> None:
         super().__init__()
         self.scn: dict[str, Any] = {}
         self.sync_params = sync_params or []
+        self.sync_name = sync_name
 
     def reset(self) -> None:
         self.scn = {}
@@ -63,7 +65,9 @@ class SelInterp(HelperCalls, Interp):
         if isinstance(base, Obj) and base.cls == "self":
             if attr == "_stream":
                 return Obj("stream", who="primary")
-            if attr in ("_synchronize_and_fetch_fallback", "_is_value_valid"):
+            if attr == self.sync_name:
+                return ("m", SYNC_HINT)
+            if attr == "_is_value_valid":
                 return ("m", attr)
             if attr == "_name":
                 return "name"
@@ -117,8 +121,9 @@ class SelInterp(HelperCalls, Interp):
 def check_sel(run: Run, prog: Program) -> None:
     fn = prog.func(f"{MF}.fetch_next_with_fallback")
     run.analysed(fn.qual)
-    it = SelInterp([p for p in prog.func(f"{MF}._synchronize_and_fetch_fallback").params if p != "self"])
-    it.bind_helpers(prog, fn, keep=("_synchronize_and_fetch_fallback", "_is_value_valid"))
+    sname = fallback_sync_name(prog)
+    it = SelInterp([p for p in prog.func(f"{MF}.{sname}").params if p != "self"], sname)
+    it.bind_helpers(prog, fn, keep=(sname, "_is_value_valid"))
 
     def make_args() -> dict[str, Any]:
         return {"self": Obj("self"), fn.params[1]: Obj("fallback")}
@@ -228,8 +233,26 @@ def _only_without_fallback(prog: Program, m: Any, call: ast.Call) -> bool:
     fl = Flow(prog, m)
     _is_fb, _aw, scenario, _recv = _fallback_model(fl)
     nid = fl.node_of(call)
-    return fl.cfg.path(fl.cfg.entry, [nid], edge_ok=pruned(fl.cfg, scenario(configured=True), normal_only=False)) is None \
-        and fl.cfg.path(fl.cfg.entry, [nid], edge_ok=pruned(fl.cfg, scenario(configured=False), normal_only=False)) is not None
+    return fl.cfg.path(fl.cfg.entry, [nid], edge_ok=scenario(configured=True)) is None \
+        and fl.cfg.path(fl.cfg.entry, [nid], edge_ok=scenario(configured=False)) is not None
+
+
+def fallback_sync_name(prog: Program) -> str:
+    """The fallback synchronisation, bound by role: the private coroutine method that
+    fetch_next_with_fallback() hands the freshly received primary sample to (the name is only a hint)."""
+    cls = prog.cls(MF)
+    if SYNC_HINT in cls.methods:
+        return SYNC_HINT
+    fw = Flow(prog, prog.func(f"{MF}.fetch_next_with_fallback"))
+    prim = [c for _n, c in fw.calls(lambda c: method_call(c, "self._stream", "receive"))]
+    cands = set()
+    for nid, c in fw.calls(lambda c: isinstance(c.func, ast.Attribute) and u(c.func.value) == "self" and c.func.attr.startswith("_")
+                           and c.func.attr in cls.methods and cls.methods[c.func.attr].is_async):
+        if any(fw.is_node_any(a, prim, nid) for a in list(c.args) + [k.value for k in c.keywords]):
+            cands.add(c.func.attr)  # type: ignore[union-attr]
+    if len(cands) != 1:
+        raise AnalysisError(f"{MF}: no method plays the role of the fallback synchronisation (candidates: {sorted(cands)})")
+    return cands.pop()
 
 
 def fetch_unit(prog: Program) -> Any:
@@ -249,7 +272,17 @@ def _fallback_model(fl: Flow) -> tuple[Any, Any, Any, list[tuple[int, ast.Call]]
 
     recv = [(nid, c) for nid, c in fl.calls(lambda c: method_call(c, "self._stream", "receive")) if awaited(c)]
 
-    def scenario(**assign: bool) -> Any:
+    memo: dict[Any, Any] = {}
+    recv_nodes = {nid for nid, _c in recv}
+
+    def scenario(normal_only: bool = False, received: bool | None = None, **assign: bool) -> Any:
+        """Edge filter of the scenario: `configured` / `running` / `valid` decide the branches that test them;
+        `received` says whether the primary receive returned (True) or raised (False).  Flags computed from
+        these conditions are followed through the definitions the scenario can execute."""
+        key = (normal_only, received, tuple(sorted(assign.items())))
+        if key in memo:
+            return memo[key]
+
         def atom(e: ast.AST, nid: int) -> bool | None:
             if isinstance(e, ast.Attribute) and e.attr == "is_running" and is_fb(e.value, nid):
                 return assign.get("running")
@@ -266,7 +299,16 @@ def _fallback_model(fl: Flow) -> tuple[Any, Any, Any, list[tuple[int, ast.Call]]
                         and fl.is_node_any(o.node.value, [c for _n, c in recv], o.nid):
                     return assign.get("valid")
             return None
-        return lifted(fl, atom)
+
+        base = pruned(fl.cfg, lifted(fl, atom, scenario=lambda _f: memo[key]), normal_only=normal_only)
+
+        def ok(a: int, b: int, lab: str) -> bool:
+            if received is not None and a in recv_nodes and lab.startswith("exc:") == received:
+                return False
+            return base(a, b, lab)
+
+        memo[key] = ok
+        return ok
 
     return is_fb, awaited, scenario, recv
 
@@ -311,19 +353,19 @@ def check_lazy(run: Run, prog: Program) -> None:
         isinstance(x, ast.Attribute) and x.attr == "is_running" for part in own_parts(n) for x in ast.walk(part))]
 
     # --- running: never (re)started, always the synchronised fetch
-    run_e = pruned(cfg, scenario(configured=True, running=True), normal_only=False)
+    run_e = scenario(configured=True, running=True)
     wit = cfg.path(cfg.entry, [st], edge_ok=run_e)
-    wit2 = cfg.path(cfg.entry, [cfg.exit], avoid=sync, edge_ok=pruned(cfg, scenario(configured=True, running=True)))
+    wit2 = cfg.path(cfg.entry, [cfg.exit], avoid=sync, edge_ok=scenario(normal_only=True, configured=True, running=True))
     ok = bool(running_reads) and bool(sync) and wit is None and wit2 is None
     run.check(ok, "C19.LAZY", raw.qual, "start() only while not running; running -> synchronised fetch",
               "the fallback can be (re)started while it is already running, or a running fallback is "
               "not consulted", node=raw.node, file=raw.file, path=cfg.describe_path(wit or wit2))
     # --- not running: the received primary sample is judged by the shared validity predicate
-    idle = pruned(cfg, scenario(configured=True, running=False), normal_only=False)
+    idle = scenario(configured=True, running=False)
     prim = [(nid, c) for nid, c in recv if cfg.path(cfg.entry, [nid], edge_ok=idle) is not None]
     after = [m for nid, _c in prim for m, lab in cfg.succ[nid] if normal(nid, m, lab)]
-    valid_e = pruned(cfg, scenario(configured=True, running=False, valid=True))
-    invalid_e = pruned(cfg, scenario(configured=True, running=False, valid=False))
+    valid_e = scenario(normal_only=True, received=True, configured=True, running=False, valid=True)
+    invalid_e = scenario(normal_only=True, received=True, configured=True, running=False, valid=False)
     # an invalid sample cannot be returned without starting the fallback -- unless the branch is decided by
     # something other than _is_value_valid(<received>.value)
     wit = None
@@ -337,9 +379,7 @@ def check_lazy(run: Run, prog: Program) -> None:
     if ok:
         good = cfg.reachable(after, edge_ok=valid_e)
         rets = [r for r in fl.returns() if r in good]
-        base_e = pruned(cfg, scenario(configured=True, running=False, valid=True), normal_only=False)
-        # ... the primary was received (its receive did not raise) and is valid
-        valid_scn = lambda _f: (lambda a, b, lab: base_e(a, b, lab) and not (a == prim[0][0] and lab.startswith("exc:")))  # noqa: E731
+        valid_scn = lambda _f: scenario(received=True, configured=True, running=False, valid=True)  # noqa: E731
 
         def is_prim(r: int) -> bool:
             o = returned(r, valid_scn)
@@ -355,14 +395,14 @@ def check_lazy(run: Run, prog: Program) -> None:
     for r, _c in prim:
         for m, lab in cfg.succ[r]:
             if lab == "exc:E" and cfg.nodes[m].kind == "handler":
-                wit = cfg.path(m, [cfg.exit], avoid=[st], edge_ok=normal)
+                wit = cfg.path(m, [cfg.exit], avoid=[st], edge_ok=scenario(received=False, configured=True, running=False))
                 run.check(st in cfg.reachable([m]) and wit is None, "C19.LAZY", raw.qual, "failed primary -> fallback started",
                           "a failing primary stream does not start the fallback", node=cfg.nodes[m].ast, file=raw.file,
                           path=cfg.describe_path(wit))
     # no fallback configured: plain primary, the fallback is never dereferenced
-    none_e = pruned(cfg, scenario(configured=False), normal_only=False)
+    none_e = scenario(configured=False)
     wit = cfg.path(cfg.entry, starts + sync + running_reads, edge_ok=none_e)
-    plain = cfg.path(cfg.entry, [cfg.exit], edge_ok=pruned(cfg, scenario(configured=False)))
+    plain = cfg.path(cfg.entry, [cfg.exit], edge_ok=scenario(normal_only=True, configured=False))
     run.check(wit is None and plain is not None, "C19.LAZY", raw.qual, "if self._fallback is None: primary only",
               "the fallback is dereferenced without checking that one is configured", node=raw.node, file=raw.file,
               path=cfg.describe_path(wit))
@@ -390,10 +430,12 @@ def check_lazy(run: Run, prog: Program) -> None:
 
 
 def check_sync(run: Run, prog: Program, rule: str = "C19.SYNC") -> None:
-    fn = prog.func(f"{MF}._synchronize_and_fetch_fallback")
+    fn = prog.func(f"{MF}.{fallback_sync_name(prog)}")
     run.analysed(fn.qual)
     fl = Flow(prog, fn)
     cfg = fl.cfg
+    if len(fn.params) < 3:
+        raise AnalysisError(f"{fn.qual}: expected (self, primary sample, fallback fetcher)")
     prim, fb = fn.params[1], fn.params[2]
     LATEST = "self._latest_fallback_sample"
     PTS = f"{prim}.timestamp"
@@ -570,12 +612,17 @@ def build_controls(prog: Program) -> list[tuple[str, str, str, str, str]]:
         if patch is not None:
             out.append((name, module, patch[0], patch[1], rule))
 
+    mfc = prog.cls(MF)
     fw = prog.func(f"{MF}.fetch_next_with_fallback")
+    unit_names = set(getattr(fetch_unit(prog).node, "_inlined", ())) | {"fetch_next"}
+    unit_methods = [m for m in mfc.methods.values() if m.name in unit_names]   # whoever holds the logic of fetch_next()
     for c in find_calls(fw.node, lambda c: method_call(c, "self", "_is_value_valid"))[:1]:
         txt = seg(fw.module, c)
         add("validity test inverted", STEPS, stmt_patch(fw, c, lambda t, txt=txt: t.replace(txt, f"(not {txt})", 1)), "C19.SEL")
+    # the synchronised fetch: whichever private method the public entry point hands the primary sample to
+    sy_name = fallback_sync_name(prog)
     for a in (x for x in ast.walk(fw.node) if isinstance(x, (ast.Assign, ast.AnnAssign)) and isinstance(x.value, ast.Await)
-              and isinstance(x.value.value, ast.Call) and method_call(x.value.value, "self", "_synchronize_and_fetch_fallback")):
+              and isinstance(x.value.value, ast.Call) and method_call(x.value.value, "self", sy_name)):
         c = a.value.value  # type: ignore[union-attr]
         first = (list(c.args) + [k.value for k in c.keywords])[0] if (c.args or c.keywords) else None
         if first is not None:
@@ -583,36 +630,42 @@ def build_controls(prog: Program) -> list[tuple[str, str, str, str, str]]:
             add("healthy primary skips the fallback read", STEPS, stmt_patch(
                 fw, a, lambda t, ptxt=ptxt: f"{indent_of(t)}if self._is_value_valid({ptxt}.value):\n{indent_of(t)}    return {ptxt}\n" + t), "C19.TICK")
         break
-    fn = prog.func(f"{MF}._fetch_next")
-    for s_ in fn.node.body:
-        if isinstance(s_, ast.If) and not s_.orelse and any(
-                isinstance(x, ast.Call) and method_call(x, "self", "fetch_next_with_fallback") for b in s_.body for x in ast.walk(b)):
-            add("fallback restarted every round", STEPS, stmt_patch(fn, s_, lambda t: ""), "C19.LAZY")
+    done: set[str] = set()
+    for fn in unit_methods:
+        for s_ in ast.walk(fn.node):
+            if "restart" not in done and isinstance(s_, ast.If) and not s_.orelse and any(
+                    isinstance(x, ast.Call) and method_call(x, "self", "fetch_next_with_fallback") for b in s_.body for x in ast.walk(b)) \
+                    and any(isinstance(b, ast.Return) for b in s_.body):
+                add("fallback restarted every round", STEPS, stmt_patch(fn, s_, lambda t: ""), "C19.LAZY")
+                done.add("restart")
+        for c in find_calls(fn.node, lambda c: method_call(c, "self", "_is_value_valid") and len(c.args) == 1)[:1]:
+            if "none" not in done:
+                txt, arg = seg(fn.module, c), seg(fn.module, c.args[0])
+                add("None-only validity when starting the fallback", STEPS,
+                    stmt_patch(fn, c, lambda t, txt=txt, arg=arg: t.replace(txt, f"({arg} is not None)", 1)), "C19.LAZY")
+                done.add("none")
+    sy = mfc.methods.get(sy_name)
+    if sy is not None and len(sy.params) > 1:
+        prim = sy.params[1]
+        # catch-up advances the primary: the receive inside (or called from) the catch-up loop reads the wrong stream
+        for w in (x for x in ast.walk(sy.node) if isinstance(x, ast.While)):
+            for a in (x for x in ast.walk(w) if isinstance(x, ast.Assign) and isinstance(x.value, ast.Await)
+                      and isinstance(x.value.value, ast.Call) and method_call(x.value.value, None, "receive")):
+                add("catch-up advances the primary", STEPS, stmt_patch(
+                    sy, a, lambda t, prim=prim: f"{indent_of(t)}{prim} = await self._stream.receive()\n"), "C19.SYNC")
+                break
             break
-    for c in find_calls(fn.node, lambda c: method_call(c, "self", "_is_value_valid") and len(c.args) == 1)[:1]:
-        txt, arg = seg(fn.module, c), seg(fn.module, c.args[0])
-        add("None-only validity when starting the fallback", STEPS,
-            stmt_patch(fn, c, lambda t, txt=txt, arg=arg: t.replace(txt, f"({arg} is not None)", 1)), "C19.LAZY")
-    sy = prog.func(f"{MF}._synchronize_and_fetch_fallback")
-    prim = sy.params[1] if len(sy.params) > 1 else "primary"
-    for w in (x for x in sy.node.body if isinstance(x, ast.While)):
-        for a in (x for x in ast.walk(w) if isinstance(x, ast.Assign) and isinstance(x.value, ast.Await)
-                  and isinstance(x.value.value, ast.Call) and method_call(x.value.value, None, "receive")):
-            add("catch-up advances the primary", STEPS, stmt_patch(
-                sy, a, lambda t, prim=prim: f"{indent_of(t)}{prim} = await self._stream.receive()\n"), "C19.SYNC")
-            break
-        break
-    for s_ in sy.node.body:
-        if isinstance(s_, ast.If) and "timestamp" in u(s_.test) and "None" not in u(s_.test) and len(s_.body) == 1 \
-                and isinstance(s_.body[0], ast.Return) and u(s_.body[0].value) == "None" and not s_.orelse:
-            add("older-test only on first fetch", STEPS, stmt_patch(sy, s_, lambda t: ""), "C19.SYNC")
-            break
+        for s_ in ast.walk(sy.node):
+            if isinstance(s_, ast.If) and "timestamp" in u(s_.test) and "None" not in u(s_.test) and len(s_.body) == 1 \
+                    and isinstance(s_.body[0], ast.Return) and u(s_.body[0].value) == "None" and not s_.orelse:
+                add("older-test only on first fetch", STEPS, stmt_patch(sy, s_, lambda t: ""), "C19.SYNC")
+                break
     stt = prog.func(f"{FFM}:FallbackFormulaMetricFetcher.start")
     for c in find_calls(stt.node, lambda c: isinstance(c.func, ast.Attribute) and c.func.attr == "new_receiver")[:1]:
         txt = seg(stt.module, c)
         add("tiny fallback receiver", FFM, stmt_patch(
             stt, c, lambda t, txt=txt, c=c: t.replace(txt, seg(stt.module, c.func) + "(max_size=1)", 1)), "C19.BUF")
-    if len(out) < 5:
+    if len(out) < 4:
         raise AnalysisError(f"C19: only {len(out)} of 7 seeded controls could be derived from the source "
                             f"({[o[0] for o in out]})")
     return out
